@@ -13,6 +13,7 @@ Correspondence (all evaluated inside Coq):
      taken against  first_tick (map build1 clauses) envs.
 """
 import itertools
+import math
 import os
 import sys
 from fractions import Fraction
@@ -571,7 +572,7 @@ def run(ctx):
     ok = gen(ctx)
     okf = gen_fields(ctx)
     if ok:
-        ctx.coq_build(["C21/Props.v"] + (["C21/FieldProps.v"] if okf else []))
+        ctx.coq_build(["C21/Props.v", "C21/FloatSpec.v"] + (["C21/FieldProps.v"] if okf else []))
     if not ok or not okf:
         ctx.obligations += 1
 
@@ -616,6 +617,16 @@ def run(ctx):
         m1.append((s, op, g, t, r))
         ctx.case({"check": [canon(s), op, canon(g), canon(t)], "res": [canon(x) for x in r]},
                  nontrivial=op in OPS, kind="Check " + (op if op in OPS else "other"))
+
+    # 1b. edge-of-band binary64 triples against the written comparison evaluated with Coq primitive floats
+    me = run_edge(edge_triples(rng, ctx.n(1500, 100000)))
+    ce = []
+    for st, g, t, req, rne in me:
+        okb = isinstance(req, bool) and isinstance(rne, bool)
+        ce.append(("(written_eq_f %s %s %s, written_ne_f %s %s %s)" % (flit(st), flit(g), flit(t), flit(st), flit(g), flit(t)),
+                   "(%s, %s)" % (("true" if req else "false"), ("true" if rne else "false")) if okb else "(true, true)"))
+        ctx.case({"edge": [st.hex(), g.hex(), t.hex()], "res": [str(req), str(rne)]}, nontrivial=True,
+                 kind="Check float band edge")
 
     # 2 + 3. programs
     c2, m2, c3, m3 = [], [], [], []
@@ -676,12 +687,113 @@ def run(ctx):
             ctx.extra["mismatches_" + name] = len(bad)
             for i in bad[:4]:
                 ctx.tie_broken("correspondence", label, repr(metas[i])[:1500])
+    if ok:
+        bad = ctx.coq_cases(HEADER_F, "bb_eqb", ce, name="edg")
+        ctx.extra["mismatches_edg"] = len(bad)
+        for i in bad[:4]:
+            ctx.tie_broken("correspondence", "written comparison in binary64 (FloatSpec) vs Need.Check", repr(me[i]))
     ctx.exhaustive = False
 
     def search():
-        return find_failing_fields(m0) or find_failing(m1, m3)
+        return find_failing_fields(m0) or find_failing_edge(me) or find_failing(m1, m3) or \
+            find_failing_edge(run_edge(edge_triples()))
 
     ctx.settle(search)
+
+
+# ---------------------------------------------------------------------------------------
+# edge-of-band float triples: binary64, band edges NOT representable (0.3 + 0.1, -1.0 - 0.1, inf - inf)
+def edge_triples(rng=None, limit=None):
+    """(state, goal, tol): goal and tol from a decimal grid (0.1 steps, negatives, infinities); state on the
+    band edge both as the written decimal literal and as the float sum/difference, plus ulp neighbours"""
+    inf = float("inf")
+    goals = [i / 10.0 for i in range(-15, 16)] + [float("%d.%d" % (a, b)) for a in (2, 7) for b in (3, 9)] + [inf, -inf]
+    tols = [0.1, 0.2, 0.3, 0.7, -0.1, -0.4, 0.0, 1.1, inf]
+    out, seen = [], set()
+    for g in goals:
+        for t in tols:
+            a = abs(t)
+            cands = [g + a, g - a, g]
+            if math.isfinite(g) and math.isfinite(a):
+                cands += [float(repr(round(g + a, 1))), float(repr(round(g - a, 1)))]     # the literal one would write
+            ext = []
+            for c in cands:
+                ext.append(c)
+                if math.isfinite(c):
+                    ext += [math.nextafter(c, inf), math.nextafter(c, -inf)]
+            for st in ext:
+                if st != st:
+                    continue
+                k = (st.hex(), g.hex(), t.hex())
+                if k not in seen:
+                    seen.add(k)
+                    out.append((st, g, t))
+    if rng is not None and limit is not None and len(out) > limit:
+        must = [(0.4, 0.3, 0.1), (-1.1, -1.0, 0.1), (inf, inf, 0.1)]
+        rest = [x for x in out if x not in must]
+        rng.shuffle(rest)
+        out = must + rest[:limit - len(must)]
+    return out
+
+
+def band_f(s, g, t):
+    """the property's statement for '==' in binary64, exactly as written"""
+    return (g - abs(t)) <= s <= (g + abs(t))
+
+
+def run_edge(triples):
+    from ioflo.base import needing
+    out = []
+    for s, g, t in triples:
+        r = []
+        for op in ("==", "!="):
+            try:
+                r.append(needing.Need.Check(s, op, g, t))
+            except Exception as ex:
+                r.append("raised " + type(ex).__name__)
+        out.append((s, g, t, r[0], r[1]))
+    return out
+
+
+def find_failing_edge(me):
+    """'==' iff the written band holds; '!=' is its complement -- on the implementation alone"""
+    best = None
+    for s, g, t, req, rne in me:
+        exp = band_f(s, g, t)
+        why = None
+        if req is not exp:
+            why = "'==' gives %r although the written comparison %r - |%r| <= %r <= %r + |%r| is %r" % (req, g, t, s, g, t, exp)
+        elif rne is not (not exp):
+            why = "'!=' gives %r, not the complement of the written band (%r)" % (rne, exp)
+        if why:
+            size = len(repr(s)) + len(repr(g)) + len(repr(t)) + (0 if math.isfinite(s) and math.isfinite(g) else 40)
+            if best is None or size < best[0]:
+                best = (size, {"key": "need-check-float-band", "function": "Need.Check", "state": repr(s), "goal": repr(g),
+                               "tolerance": repr(t), "state_hex": s.hex(), "goal_hex": g.hex(), "tolerance_hex": t.hex(),
+                               "observed": {"==": req, "!=": rne}, "expected": {"==": exp, "!=": not exp}, "why": why,
+                               "contradicts": "C21 statement in binary64 (coq/C21/FloatSpec.v written_eq_f / written_ne_f); "
+                                              "C21.Props.check_ne_is_negation"})
+    return best[1] if best else None
+
+
+def flit(f):
+    """python float -> Coq primitive float literal"""
+    if f != f:
+        return "nan"
+    if f == float("inf"):
+        return "infinity"
+    if f == float("-inf"):
+        return "neg_infinity"
+    h = f.hex()
+    return "(%s)" % h
+
+
+HEADER_F = """From Coq Require Import Floats Bool List.
+Import ListNotations.
+Require Import V.C21.FloatSpec.
+Open Scope float_scope.
+Definition bb_eqb (a b : bool * bool) : bool := Bool.eqb (fst a) (fst b) && Bool.eqb (snd a) (snd b).
+"""
 
 
 def find_failing_fields(m0):
@@ -745,4 +857,4 @@ def search(ctx):
         res = run_program(ctx, conds, envs, "s%d" % pi)
         for i, cs in enumerate(conds):
             m3.append((cond_text(cs), envs, res if res[0] == "err" else res[1][i], cs))
-    return find_failing(m1, m3)
+    return find_failing_edge(run_edge(edge_triples())) or find_failing(m1, m3)
